@@ -377,6 +377,11 @@ func runC02(res *hx.Result, rng *hx.Rng, tier string, outdir string) {
 			boundary = append(boundary, &dv{kind: "O", sig: sg, b: tv.Enc(), t: t, tv: tv})
 		}
 	}
+	// opaque values of types that differ but look alike to a cache keyed by part of a type, one after the other
+	for _, t := range wg.CollidingTys() {
+		tv := wg.GenValFull(rng, t, 2)
+		boundary = append(boundary, &dv{kind: "O", sig: t.Sig(), b: tv.Enc(), t: t, tv: tv})
+	}
 	for i := 0; i < n+len(boundary); i++ {
 		var d *dv
 		if i < len(boundary) {
